@@ -91,6 +91,7 @@ def check(ctx):
     ]
     ctx.rule("R1", "every character whose token the grammar excludes from subprocess argument parts triggers quoting (is in completion_quoting._PATTERN)", floor=14)
     ctx.rule("R2", "path completer and bash-completion bridge decide quoting through the one shared helper (no drifting private copies)", floor=2)
+    ctx.rule("R5", "the tokenizer's column scans make progress on every cycle (the analyser, which runs it in tolerant mode over any text, returns)", floor=2)
     ctx.rule("R4", "the completion-context analyser's line-start table agrees with the lexer's notion of a line (\\n only)", floor=1)
     ctx.rule("R3", "both emitters escape the closing delimiter in force, on every path, after backslash doubling and before the assembly start+name+end", floor=10)
 
@@ -304,6 +305,60 @@ def check(ctx):
                 ctx.ob("R4", f"{cc_rel}:{q_}", f"`{short(n_, 60)}`: the line-start table (indexed by the lexer's line number, which advances at \\n only) is computed from \\n only, not with splitlines()", not uses_splitlines and nl_only, key=f"{q_}|line-table-splitlines", where=loc(n_))
     if n_tab < 1:
         raise AnalysisError(f"{cc_rel}: no construction of the line-start table found")
+
+
+    # ------------------------------------------------------------------ R5
+    # "analysing a command line never fails" includes "returns": the analyser runs xonsh's tokenizer in tolerant
+    # mode over whatever is in the buffer.  Its column scans (`while pos < max`) must make progress on every cycle:
+    # a way back to the loop head that neither moves `pos` nor changes the scanner state that selected the branch
+    # (f-string stack / in_expr / in_format_spec) repeats for ever on the same character.
+    tkm = ctx.repo.module("xonsh/parsers/tokenize.py")
+    tzf = tkm.func("_tokenize")
+    zcfg = CFG(tzf)
+    zdefs = df.all_defs(tzf)
+    # the column variable: compared with a bound in the loop tests and used to index the line
+    scan_loops = [n for n in zcfg.nodes if n.kind == "while" and isinstance(n.ast.test, ast.Compare) and isinstance(n.ast.test.left, ast.Name) and isinstance(n.ast.test.ops[0], ast.Lt) and isinstance(n.ast.test.comparators[0], ast.Name)]
+    by_var = {}
+    for n in scan_loops:
+        by_var.setdefault(n.ast.test.left.id, []).append(n)
+    POS = max(by_var, key=lambda k_: len(by_var[k_])) if by_var else None
+    if POS is None or len(by_var[POS]) < 2:
+        raise AnalysisError(f"xonsh/parsers/tokenize.py:_tokenize: column scans (`while <pos> < <max>`) not found ({ {k_: len(v_) for k_, v_ in by_var.items()} })")
+    STACKS = {n_ for n_, ds_ in zdefs.items() if any(d_.kind == "param" for d_ in ds_) is False and any(isinstance(d_.value, ast.List) or (isinstance(d_.value, ast.IfExp) and any(isinstance(x, ast.List) for x in (d_.value.body, d_.value.orelse))) for d_ in ds_ if d_.value is not None) and "fstring" in n_} | {"fstring_stack"}
+    FRAMES = names_defined_by(tzf, lambda v: isinstance(v, ast.Subscript) and unparse(v.value) in STACKS and unparse(v.slice) == "-1", zdefs)
+    MODE_KEYS = {"in_expr", "in_format_spec"}
+
+    def progress(n_):
+        if n_.kind != "stmt":
+            return False
+        a_ = n_.ast
+        if isinstance(a_, (ast.Assign, ast.AugAssign)):
+            tg = a_.targets if isinstance(a_, ast.Assign) else [a_.target]
+            for t in tg:
+                for x in ast.walk(t):
+                    if isinstance(x, ast.Name) and x.id == POS and isinstance(x.ctx, ast.Store):
+                        return True
+                if isinstance(t, ast.Subscript) and const_value(t.slice) in MODE_KEYS and (unparse(t.value) in FRAMES or any(unparse(t.value) == f"{s_}[-1]" for s_ in STACKS)):
+                    return True
+        for c in calls_in(a_):
+            if isinstance(c.func, ast.Attribute) and c.func.attr in ("pop", "append") and unparse(c.func.value) in STACKS:
+                return True
+        return False
+
+    for w in by_var[POS]:
+        inside = lambda m_, w=w: m_.ast is not None and (m_.ast is w.ast or lexically_inside(m_.ast, w.ast))
+        starts = [m_ for m_, l_ in w.succ if l_ == "true"]
+        seen = zcfg.reach([s_ for s_ in starts if not progress(s_)], stop=progress, skip_edge=lambda a_, b_, l_, inside=inside, w=w: not inside(b_) or l_ == "exc" or (a_.kind == "while" and a_ is not w and l_ == "false" and unparse(a_.ast.test) == unparse(w.ast.test)), include_starts=True)  # an inner scan that ran off the end of the line ends the outer scan too
+        cyc = w in seen
+        ctx.ob(
+            "R5",
+            "xonsh/parsers/tokenize.py:_tokenize",
+            f"`while {short(w.ast.test)}` (line {w.ast.lineno}): every way back to the loop head moves `{POS}` or changes the scanner state (f-string stack / mode flags) - tolerant mode included",
+            not cyc,
+            key=f"tokenize|cycle-without-progress|{'outer' if not any(isinstance(a_, ast.While) and a_ is not w.ast and isinstance(a_.test, ast.Compare) and unparse(a_.test) == unparse(w.ast.test) for a_ in ancestors(w.ast)) else 'inner'}|{[x.ast.lineno for x in by_var[POS]].index(w.ast.lineno)}",
+            where=loc(w.ast),
+            path=zcfg.fmt_path(zcfg.path_to(seen, w), limit=22) if cyc else None,
+        )
 
 
 META = {
